@@ -56,7 +56,7 @@ def purge_phase(ctx, orc, fails, dist):
     rng = ctx.rng
     mism = []
     for max_ttl in ((5, 60, 300) if ctx.thorough else (5, 60)):
-        cr = credcorr.CredRig(ctx, exe, orc, tag="c05p%d" % max_ttl, max_ttl=max_ttl, clock=T, extra=["--group-update-time=0"])
+        cr = credcorr.CredRig(ctx, exe, orc, tag="c05p%d" % max_ttl, max_ttl=max_ttl, clock=T, extra=["--group-update-time=3600"])
         if not cr.ok:
             ctx.violation("daemon does not start (purge phase)", {"obligation": "start"}, found_input=False)
             return mism
@@ -75,6 +75,9 @@ def purge_phase(ctx, orc, fails, dist):
                             ("purge", min(ttl, offs[2] + 70)), ("dec", min(ttl, offs[2] + 70))]
                     succ = 0
                     log = []
+                    if rep == 0:
+                        cr.d.sighup(settle=0.15)       # a reconfiguration (cancels and re-queues the group-map timer) must not disturb the purge service
+                        log.append("SIGHUP")
                     for ev, dt in hist:
                         cr.set_clock(T + dt)
                         if ev == "purge":
